@@ -167,8 +167,9 @@ static void actor_close_all(Child *c) {
     sim_bump_epoch();
 }
 
+/* actor output is stream w = 1000 + 4*idx + fd of the tagged byte space used by sim/fill */
 static unsigned char tag_byte(int idx, int stream, uint64_t off) {
-    return (unsigned char)(sim_hash(0xC41D, (uint64_t) idx, (uint64_t) stream, off >> 3) >> ((off & 7) * 8));
+    return sim_tagb(1000 + 4 * (uint64_t) idx + (uint64_t) stream, off);
 }
 
 /* returns 0 at EOF/error, -1 if killed */
